@@ -15,7 +15,7 @@ man = {
    "enable": "go build -tags verif (the harness module /verif/harness replaces the library module with /repo and is always built with -tags verif)",
    "baseline_off_cmd": "cd /repo && go build ./... && go test -vet=off -count=1 -timeout 25m ./...",
    "source_commits": hooks_commits,
-   "add_only": True,
+   "add_only": False,
  },
  "engines": [
    {"name": "coq-model", "path": "coq/", "serves_properties": sorted(CLAIMED), "kind_free_text": "Coq 8.16.1 development: Model/ (executable Gallina), Proofs/, Properties/Cxx.v (statements + Print Assumptions), Generated/ (verifgen output from /repo)"},
@@ -24,7 +24,7 @@ man = {
  ],
  "checks": [],
  "not_applicable": [],
- "notes": "All checks: ./check <id> quick|thorough. Evidence is written by the check itself. known-findings.txt lists fixed/known defects.",
+ "notes": "Hooks: every hook commit adds files guarded by //go:build verif; two of them also touch existing lines: sample.Paillier calls verifPrimes() (3 inserted lines; no-op without the tag) and pkg/pool/pool.go calls yield()/expose() at its synchronisation points and threads a worker index through worker()/workerSearch() (the for-loop header of workerSearch is rewritten to yield before every test; yield/expose are empty inlined functions without the tag). All checks: ./check <id> quick|thorough. Evidence is written by the check itself. known-findings.txt lists fixed/known defects.",
 }
 for p in props:
     i = p["id"]
